@@ -5,13 +5,13 @@
 package main
 
 import (
-	"bufio"
 	"context"
 	"encoding/json"
 	"errors"
 	"flag"
 	"fmt"
 	"go/version"
+	"io"
 	"io/fs"
 	"log"
 	"net/http"
@@ -309,10 +309,12 @@ func readMergedReports(ctx context.Context, fileName string, s *storage.API) ([]
 	defer in.Close()
 
 	var reports []telemetry.Report
-	scanner := bufio.NewScanner(in)
-	for scanner.Scan() {
+	dec := json.NewDecoder(in)
+	for {
 		var report telemetry.Report
-		if err := json.Unmarshal(scanner.Bytes(), &report); err != nil {
+		if err := dec.Decode(&report); err == io.EOF {
+			break
+		} else if err != nil {
 			return nil, err
 		}
 		reports = append(reports, report)
